@@ -3,7 +3,9 @@
 listed properties (evidence redirected so committed evidence is not clobbered), undo the patch.
 usage: run_seeds.py [seed ...]   (default: all under /verif/seeded)   writes seeded/RESULTS.json"""
 import json, os, subprocess, sys, glob
-os.chdir("/verif")
+VERIF = os.path.dirname(os.path.dirname(os.path.abspath(__file__)))
+REPO = os.environ.get("VERIF_REPO", "/repo")
+os.chdir(VERIF)
 seeds = sys.argv[1:] or sorted(d for d in os.listdir("seeded") if os.path.isfile(f"seeded/{d}/patch.diff"))
 claimed = [c["property_id"] for c in json.load(open("MANIFEST.json"))["checks"]]
 try:
@@ -14,23 +16,23 @@ for s in seeds:
     d = f"seeded/{s}"
     prop = s.split("-")[0]
     props = [p for p in dict.fromkeys([prop] + json.load(open(f"{d}/meta.json")).get("also_check", [])) if p in claimed]
-    if subprocess.run(["git", "-C", "/repo", "status", "--porcelain"], capture_output=True, text=True).stdout.strip():
+    if subprocess.run(["git", "-C", REPO, "status", "--porcelain"], capture_output=True, text=True).stdout.strip():
         print("repo not clean"); sys.exit(3)
     patch = f"{d}/patch.diff"
     if os.path.exists(f"{d}/patch.head.diff"):
         patch = f"{d}/patch.head.diff"   # re-based on the current tree (the original no longer applies after a fix: commit)
-    a = subprocess.run(["git", "-C", "/repo", "apply", os.path.abspath(patch)], capture_output=True, text=True)
+    a = subprocess.run(["git", "-C", REPO, "apply", os.path.abspath(patch)], capture_output=True, text=True)
     entry = {"checked_by": props, "detected_by": [], "detail": {}}
     if a.returncode != 0:
         entry["detail"]["apply"] = "patch does not apply to the current tree: " + a.stderr.strip()[:200]
     else:
         for p in props:
-            r = subprocess.run(["./check", p, "--tier", "quick", "-evidence", f"/verif/out/seed-evidence-{p}.json"], capture_output=True, text=True)
+            r = subprocess.run(["./check", p, "--tier", "quick", "-evidence", f"{VERIF}/out/seed-evidence-{p}.json"], capture_output=True, text=True)
             viol = [l for l in r.stdout.splitlines() if l.startswith("failed obligation") or l.startswith("VIOLATION")]
             entry["detail"][p] = {"exit": r.returncode, "lines": viol[:6]}
             if r.returncode == 1:
                 entry["detected_by"].append(p)
-    subprocess.run(["git", "-C", "/repo", "checkout", "--", "."]); subprocess.run(["git", "-C", "/repo", "clean", "-fdq"])
+    subprocess.run(["git", "-C", REPO, "checkout", "--", "."]); subprocess.run(["git", "-C", REPO, "clean", "-fdq"])
     results[s] = entry
     print(s, "->", entry["detected_by"] or ("not detected" if props else "property not claimed"), entry["detail"].get("apply", ""))
 json.dump(results, open("seeded/RESULTS.json", "w"), indent=1, sort_keys=True)
